@@ -469,12 +469,12 @@ pub fn main_shading(args: &Args) {
     let ngen = args.num("--generated", 40);
     for gi in 0..ngen {
         let zone = zs[(gi + rng.below(zs.len())) % zs.len()];
-        let kind = gi % 8;
+        let kind = gi % 9;
         let turn = if gi % 3 == 0 { (rng.range(0, 23) * 15) as f64 } else { rng.f64() * 360.0 };
         let origin = [rng.range(-30, 30) as f64, rng.range(-30, 30) as f64, rng.range(0, 9) as f64];
         let (bw, bd, bh) = (3.0 + rng.range(0, 12) as f64 * 0.5, 3.0 + rng.range(0, 12) as f64 * 0.5, 2.5 + rng.range(0, 4) as f64 * 0.5);
         let boxfoot = vec![(0.0, 0.0), (bw, 0.0), (bw, bd), (0.0, bd)];
-        let name = format!("gen{}-{}", gi, ["single", "box", "boxshade", "lshape", "hidden", "nopos", "tilted", "courtyard"][kind]);
+        let name = format!("gen{}-{}", gi, ["single", "box", "boxshade", "lshape", "hidden", "nopos", "tilted", "courtyard", "louvre"][kind]);
         let mut m = match kind {
             0 | 6 => {
                 // one wall (any tilt and orientation), one window flush with it: nothing can hide it
@@ -529,6 +529,23 @@ pub fn main_shading(args: &Args) {
                 m.walls.push(wall);
                 m
             }
+            8 => {
+                // a brise-soleil of equal slats in front of the first facade: many obstacles whose centres coincide on two axes
+                let mut m = building(&mut rng, &rotate_foot(&boxfoot, 0.0), bh, origin, false, false);
+                let n = [31usize, 33, 40, 64][rng.below(4)];
+                let horizontal = rng.chance(1, 2);
+                for k in 0..n {
+                    let g = if horizontal {
+                        // horizontal slats stacked in height, 20 cm in front of the south facade
+                        WallGeom { tilt: 0.0, azimuth: 0.0, position: Some(point![origin[0] as f32, (origin[1] - 0.5) as f32, (origin[2] + 0.1 + 0.075 * k as f64) as f32]), polygon: rect(bw, 0.3) }
+                    } else {
+                        // vertical fins side by side along the facade, all at the same height and depth
+                        WallGeom { tilt: 90.0, azimuth: 90.0, position: Some(point![(origin[0] + 0.05 + (bw - 0.1) * k as f64 / n as f64) as f32, (origin[1] - 0.6) as f32, origin[2] as f32]), polygon: rect(0.4, bh) }
+                    };
+                    m.shades.push(shade_of(&format!("L{}", k), g));
+                }
+                m
+            }
             _ => {
                 // elements without position: the window, or its wall
                 let mut m = building(&mut rng, &rotate_foot(&boxfoot, turn), bh, origin, true, false);
@@ -566,6 +583,15 @@ pub fn main_shading(args: &Args) {
             5 => Box::new(|w: &Window| if w.name == "NOPOS" { "nopos" } else { "any" }),
             _ => Box::new(|_| "any"),
         };
+        if let Some(dir) = args.get("--dump-only") {
+            // models for the session recorder (computed there in supervised workers)
+            let _ = std::fs::create_dir_all(&dir);
+            let _ = std::fs::write(format!("{}/shading_{}.json", dir, name), m.as_json().unwrap_or_default());
+            continue;
+        }
+        if kind == 8 && !args.flag("--with-louvres") {
+            continue;           // computed by the session recorder, which can tell a hang from a slow model
+        }
         fsh_events(&m, &name, &*expect, false, &mut out);
         for _ in 0..rounds {
             mono_event(&mut rng, &m, &name, &mut out);
